@@ -741,8 +741,6 @@ def execute(case, ctx):
     if graphviews.snapshot(G)[:-1] != graphviews.snapshot(cur)[:-1]:
         bad("replay-diverged", "the complete specification gives a "
             "different graph than its own prefix replay")
-    if not hasattr(G, "name") or not isinstance(G.name, str):
-        bad("no-name", "")
     ctx.nontrivial = randomised or bool(mods)
     ctx.probe("construction:%s" % case["construction"])
     if case["save"]:
